@@ -252,7 +252,7 @@ theorem null_elem (K : Consts) (ts : TypeSystem) (tsIdx : Nat) (hnull : NullOk t
     ∃ o0 : Obj, o0.ty = NULL_T ∧ o0.xid = some 0 ∧ o0.slots = [] ∧
       ∀ hpCur, parseFsElem K ts tsIdx hpCur { ty := NULL_T, attrs := [(ID, "0")] } = .ok (hpCur ++ [o0], 0, hpCur.length) := by
   obtain ⟨t0, hf, ha⟩ := hnull
-  have hgt : getType ts NULL_T = .ok t0 := by unfold getType; rw [hf]
+  have hgt : getTypeExact ts NULL_T = .ok t0 := by unfold getTypeExact; rw [hf]
   have hname : t0.name = NULL_T := by
     have := List.find?_some hf
     simpa using this
